@@ -991,3 +991,8 @@ ASSUMPTIONS = ('lists are modelled by value: a list that escapes (is yielded) is
 
 SCENARIOS = [('', 'replay/scenarios/c03_ops.py')]
 THOROUGH_SCENARIOS = [('', 'replay/scenarios/c03_ops.py', (s,), 300) for s in (1, 2, 3, 4, 5)]
+
+# peek's Peeker prints the remote traceback of exception elements: it relies on the contracts of is_remote_exception / get_remote_traceback
+# (the latter is total exactly on what the former accepts: units in C15)
+from contracts.c15 import IsRemoteUnit, GetTbUnit      # noqa: E402
+UNITS += [IsRemoteUnit, GetTbUnit]
